@@ -358,7 +358,9 @@ pub fn read_conference_create_response(cc_response: &mut dyn Read) -> RdpResult<
             break;
         }
 
-        let mut buffer = vec![0 as u8; (cast!(DataType::U16, header["length"])? - header.length() as u16) as usize];
+        // the block length includes its own header
+        let body_length = try_option!(cast!(DataType::U16, header["length"])?.checked_sub(header.length() as u16), "GCC: invalid block length")?;
+        let mut buffer = vec![0 as u8; body_length as usize];
         sub.read_exact(&mut buffer)?;
 
         match MessageType::from(cast!(DataType::U16, header["type"])?) {
@@ -382,8 +384,14 @@ pub fn read_conference_create_response(cc_response: &mut dyn Read) -> RdpResult<
     }
 
     // All section are important
+    let server_net = try_option!(result.get(&MessageType::ScNet), "GCC: server network data is mandatory")?;
+    let server_core = try_option!(result.get(&MessageType::ScCore), "GCC: server core data is mandatory")?;
+    let mut channel_ids = Vec::new();
+    for channel_id in cast!(DataType::Trame, server_net["channelIdArray"])?.into_iter() {
+        channel_ids.push(cast!(DataType::U16, channel_id)?);
+    }
     Ok(ServerData{
-        channel_ids: cast!(DataType::Trame, result[&MessageType::ScNet]["channelIdArray"])?.into_iter().map(|x| cast!(DataType::U16, x).unwrap()).collect(),
-        rdp_version: Version::from(cast!(DataType::U32, result[&MessageType::ScCore]["rdpVersion"])?)
+        channel_ids,
+        rdp_version: Version::from(cast!(DataType::U32, server_core["rdpVersion"])?)
     })
 }
